@@ -23,11 +23,14 @@ What the check does:
   5. crash / failing-write sweep over every durable mutation of a scenario, reload and go on;
   6. the real sequencer.Sequencer (Run) over the real pool, chain and builder with a scripted
      executor: every accepted transaction reaches RunTxns exactly once in FIFO order in batches of
-     at most 10 without further pushes; sealed blocks hold exactly the executed ones; shutdown
-     persists everything; a swallowed VM error drops the batch, any other error ends the listener.
+     at most 10 without further pushes (rounds validated by TLC against MempoolSeqTrace.tla and by
+     monitors); sealed blocks hold exactly the executed ones; shutdown persists everything; a
+     swallowed VM error drops the batch, any other error ends the listener;
+  7. mempool/p2p over libp2p hosts on the loopback interface, a real pool and chain per node: what
+     a node accepted reaches every other pool once and unchanged, what it refused does not travel.
 
 The model in force follows known_findings.json (never the tree): a defect listed `known` is
-modelled as coded, otherwise repaired.  VERIF_G09_ONLY=tlc,probes,replay,conc,sweep,seq restricts a
+modelled as coded, otherwise repaired.  VERIF_G09_ONLY=tlc,probes,replay,conc,sweep,seq,gossip restricts a
 run (development aid)."""
 import json
 import os
@@ -47,7 +50,7 @@ EXPECT = [  # cfg, violated property, what it shows
     ("Mempool_x_revival.cfg", "NoRevival", "design: the persistent list is a log, popped transactions come back after a restart"),
     ("Mempool_x_capacity.cfg", "StrictCapacityOnPush", "design: n concurrent pushers overshoot the capacity by n-1"),
     ("Mempool_x_order.cfg", "SameOrder", "design: concurrent pushers can be persisted in the other order than they are popped"),
-    ("Mempool_x_sigfirst.cfg", "NoLostWakeup", "mutant"), ("Mempool_x_lifo.cfg", "ExactlyOnceFIFO", "mutant"),
+    ("Mempool_x_sigfirst.cfg", "NoLostWakeup", "mutant"), ("Mempool_x_sigfirst2.cfg", "TokenAfterAppend", "mutant"), ("Mempool_x_lifo.cfg", "ExactlyOnceFIFO", "mutant"),
     ("Mempool_x_latefull.cfg", "RejectHasNoEffect", "mutant"), ("Mempool_x_nodrain.cfg", "CloseFlushesAll", "mutant"),
     ("Mempool_x_splitlen.cfg", "DbConsistent", "mutant"), ("Mempool_x_loadrev.cfg", "ReloadIsTheLog", "mutant"),
     ("Mempool_x_nocap.cfg", "CapacityOnPush", "mutant"), ("Mempool_x_bigbatch.cfg", "ExecBatchBound", "mutant"),
@@ -201,7 +204,7 @@ def run(ctx):
         else:
             ctx.absorb(ctx.run_engine(binary, rp["test"], inp), FAM, rp["test"])
         return ctx.finish("model_checking", "replay of one recorded behaviour")
-    only = [p for p in os.environ.get("VERIF_G09_ONLY", "").split(",") if p] or ["tlc", "probes", "replay", "conc", "sweep", "seq"]
+    only = [p for p in os.environ.get("VERIF_G09_ONLY", "").split(",") if p] or ["tlc", "probes", "replay", "conc", "sweep", "seq", "gossip"]
     assume = [k for k in os.environ.get("VERIF_G09_ASSUME_KNOWN", "").split(",") if k]
     if assume:
         print("NOTE: property=G09 DEVELOPMENT RUN: treating %s as listed known findings (VERIF_G09_ASSUME_KNOWN)" % assume, flush=True)
@@ -233,6 +236,8 @@ def bindings(ctx, binary, only, thorough, tlc_job):
         for k, v in sorted((res.get("stats") or {}).get("observations", {}).items()):
             if k.startswith("revival:memory") or k.startswith("push-after-close:memory"):
                 print("OBSERVATION property=G09 (stated design, not a verdict) %s: %s" % (k.split(":")[0], v), flush=True)
+            if k == "gossip-v1-invoke" and "panics" in v:
+                print("OBSERVATION property=G09 (mempool/p2p is not wired into the node at this commit, not a verdict): %s" % v, flush=True)
     ctx.coverage["model"] = "DedupFix=%s OverflowFix=%s" % (dedup_fix, overflow_fix)
     sw = dict(DedupFix=tla_bool(dedup_fix), OverflowFix=tla_bool(overflow_fix))
 
@@ -291,6 +296,11 @@ def bindings(ctx, binary, only, thorough, tlc_job):
         o = (res.get("stats") or {}).get("observations", {})
         if "listener-dies" in o:
             print("OBSERVATION property=G09 (seen on the real sequencer, design level, not a verdict): %s" % o["listener-dies"], flush=True)
+
+    if "gossip" in only and not diverged:
+        # mempool/p2p over libp2p hosts on the loopback interface (not wired into node.go at the pinned commit)
+        ctx.absorb(ctx.run_engine(binary, "TestMempoolGossip", {"nodes": 4 if thorough else 3, "txs": 24 if thorough else 12}, timeout=600),
+                   FAM, "TestMempoolGossip")
 
     if tlc_job is not None:
         tlc_job.result()
